@@ -292,6 +292,12 @@ theorem free_refresh_spec (cfg : Config) (rs : RS) :
   have := flipFreeBitsFrom_spec cfg.slots cfg.state.length 0 cfg.state rs
   exact ⟨rfl, this.1, this.2⟩
 
+/-- The free-spin refresh keeps the configuration `Consistent` (periodic world lines): a
+variable no operator acts on is carried through `propagate` untouched, whatever value it gets. -/
+theorem free_refresh_consistent (cfg : Config) (rs : RS) (h : Consistent cfg) :
+    Consistent (flipFreeBits cfg rs).1 :=
+  flipFreeBits_consistent cfg rs h
+
 /-! ### non-vacuity -/
 
 /-- an antiferromagnetic Heisenberg bond after the offset: weight 1/2 on |01⟩⟨01|, |10⟩⟨10| and
@@ -322,6 +328,11 @@ example : WFSlots [none, some demoOp] ∧ LegalSlots (fun _ => heis) [none, some
   · intro o ho
     simp at ho; subst ho
     simp [demoOp, Op.diagonal, heis]
+
+/-- …which is `Consistent` with a state that has an idle third variable (hypothesis of
+`free_refresh_consistent`; variable 2 has no operator) -/
+example : Consistent ⟨[true, false, true], [none, some demoOp]⟩ ∧
+    varHasOps [none, some demoOp] 2 = false := by decide
 
 /-- a reachable sampler for which the gate is open: one constant single-site term -/
 def constSite : Interaction :=
